@@ -840,3 +840,75 @@ mod tests {
         TunnResult::Done
     }
 }
+
+/// Verification hooks: add-only, compiled only with `--cfg anapaya_scion_sdk_verif`.
+///
+/// Exposes the inbound packet policy and the SCMP error construction exactly as the gateway loop
+/// uses them, so that an external harness can drive them with arbitrary datagrams.
+#[cfg(anapaya_scion_sdk_verif)]
+pub mod verif {
+    use std::{net::IpAddr, sync::Arc, time::Instant};
+
+    use sciparse::{
+        address::{addr::ScionAddr, host_addr::ScionHostAddr},
+        core::encode::EncodeError,
+        identifier::isd_asn::IsdAsn,
+        packet::view::ScionPacketView,
+        payload::scmp::model::ScmpMessage,
+    };
+    use snap_tun::server::SnapTunAuthorization;
+
+    /// Size of the gateway's receive/send buffers.
+    pub const PACKET_BUF_SIZE: usize = super::PACKET_BUF_SIZE;
+
+    pub use crate::tunnel_gateway::packet_policy::{PacketPolicyError, inbound_datagram_check};
+    use crate::{
+        dispatcher::Dispatcher,
+        tunnel_gateway::{NoopTunnelGatewayObserver, gateway::TunnelGateway},
+    };
+
+    struct NoAuthz;
+    impl SnapTunAuthorization for NoAuthz {
+        type SessionData = ();
+        fn is_authorized(&self, _now: Instant, _identity: &[u8; 32]) -> Option<Arc<()>> {
+            None
+        }
+    }
+    struct NoDispatch;
+    impl Dispatcher for NoDispatch {
+        fn try_dispatch(&self, _packet: &ScionPacketView) {}
+    }
+    type Gateway = TunnelGateway<NoAuthz, NoDispatch, NoopTunnelGatewayObserver>;
+
+    /// The SCMP message the gateway builds for a packet-policy error.
+    pub fn create_inbound_scmp_error(err: PacketPolicyError) -> ScmpMessage {
+        super::create_inbound_scmp_error(err)
+    }
+
+    /// What the gateway loop does with a datagram forwarded by the tunnel from `from_ip`:
+    /// `None` if the packet policy passes (the datagram would be dispatched), otherwise the
+    /// result of building the SCMP reply into a `PACKET_BUF_SIZE` pool buffer as the loop does
+    /// (`Err` means no reply is sent).
+    pub fn ingress_reply(
+        datagram: &[u8],
+        from_ip: IpAddr,
+        local_addr: ScionHostAddr,
+    ) -> Option<Result<Vec<u8>, EncodeError>> {
+        let err = match inbound_datagram_check(datagram, from_ip) {
+            Ok(_) => return None,
+            Err(e) => e,
+        };
+        let pool = super::PacketPool::new(1);
+        let mut target_buf = pool.get();
+        let res = Gateway::create_scmp_error(
+            err,
+            local_addr,
+            ScionAddr::new(IsdAsn::WILDCARD, from_ip.into()),
+            &mut target_buf,
+        );
+        Some(res.map(|n| {
+            target_buf.truncate(n);
+            target_buf[..].to_vec()
+        }))
+    }
+}
